@@ -772,6 +772,10 @@ func (m *MutableOverlayWorld) FindReferences(id b6.FeatureID, typed ...b6.Featur
 
 	baseReferences := m.base.FindReferences(id) // Not limiting by type in base search.
 	for baseReferences.Next() {
+		if m.features.HasFeatureWithID(baseReferences.FeatureID()) {
+			// Replaced in this world: m.references knows what the current version refers to
+			continue
+		}
 		references[baseReferences.FeatureID()] = true
 		for _, reference := range m.references.FindReferences(baseReferences.FeatureID(), typed...) {
 			references[reference.Source()] = true
